@@ -1079,7 +1079,7 @@ func init() {
 			add(fmt.Sprintf("fix%d", i), re, 6, 8)
 		}
 		// 2. random regexes of the subset
-		n := sizes(tier, 7000, 60000)
+		n := sizes(tier, 24000, 80000)
 		for i := 0; i < n; i++ {
 			depth := 1 + r.Intn(3)
 			budget := 2 + r.Intn(sizes(tier, 5, 8))
